@@ -47,6 +47,8 @@ class Baton:
         self.pick_trace: list = []
         self.tl = threading.local()
         self.threads: list[threading.Thread] = []
+        self.delivered: list[int] = []          # indices of futures in the order as_completed handed them out
+        self.delivered_while_running = 0        # deliveries made while another worker was still unfinished
 
     # ------------------------------------------------------------ worker side
     def current(self) -> str | None:
@@ -253,6 +255,9 @@ def make_pool(baton: Baton):
             if done and (not can_run or baton.ds.choose(2, "as_completed.run_workers_first") == 0):
                 f = done[baton.ds.choose(len(done), "as_completed.which_done")]
                 pending.remove(f)
+                baton.delivered.append(list(fs).index(f))
+                if any(not g.done() for g in pending):
+                    baton.delivered_while_running += 1
                 if baton.log is not None:
                     baton.log.add("deliver", fs.index(f) if hasattr(fs, "index") else -1)
                 yield f
